@@ -9,5 +9,6 @@ INVARIANT ReturnedStateIsLastReturned
 INVARIANT Composition
 INVARIANT SampleKActsInStepK
 INVARIANT ClampHolds
+INVARIANT DataStimulusLandsOnItsCompartment
 INVARIANT ColumnKIsAfterKSteps
 CHECK_DEADLOCK FALSE
